@@ -171,7 +171,9 @@ theorem can_pexp (hy : ImgHyp cfg) {f : Nat} (ih : CanAt cfg f) :
     · next v hv =>
       have := hy.num_ok _ v hv
       exact Post.ok (canonX_of_canon cfg (by simp [canon, inv_mk, this.1, this.2]) _)
-    · exact Post.ok (canonX_of_canon cfg (by simp [canon, inv_mk]) _)
+    · next b hb =>
+      have := hy.float_ok _ b hb
+      exact Post.ok (canonX_of_canon cfg (by simp [canon, inv_mk, this]) _)
     · exact Post.err
   · refine Post.bind (post_next ts) ?_
     intro _ ts1 _
